@@ -208,6 +208,23 @@ def _only_called_from(idx, eff, fn, allowed, depth=0) -> bool:
     return True
 
 
+def detached_copy_table(rep, rule="I-new-detached"):
+    from .tierops import tier_table
+    rep.rule(rule, "abstract interpretation of tier.new() (no arguments / a new name) followed by in-place edits of the copy (deleteEntry of its first entry, sort): the copy has the edited entries and the source tier is exactly as before -- no entry list is shared")
+    for kind in ("interval", "point"):
+        for k in (1, 2):
+            def call(I, t, sy, mode):
+                r = I.call_value(I.getattr(t, "new"), [], {"name": "copy"} if mode == "renamed" else {})
+                first = I.iterate(I.getattr(r, "entries"))[0]
+                I.call_value(I.getattr(r, "deleteEntry"), [first], {})
+                I.call_value(I.getattr(r, "sort"), [], {})
+                return r
+
+            def spec(O, ents, m, M, sy, mode, kind=kind):
+                return {"class": "IntervalTier" if kind == "interval" else "PointTier", "entries": list(ents[1:]), "min": m, "max": M}
+            tier_table(rep, rule, "new", kind, k, lambda at, ents: {}, ["plain", "renamed"], call, spec, "%d generic entries, copy edited in place" % k)
+
+
 def run(rep, tier):
     idx, eff = common.ctx(), common.effects()
     rep.rule("I-constructor", "abstract interpretation of the IntervalTier / PointTier constructors on k arbitrary entries (every weak order of their boundaries and of the requested span, labels with surrounding whitespace): the outcome is a praatio error or a tier that is sorted, start<end, disjoint, inside its span, whitespace-free and validate()==True")
@@ -227,6 +244,10 @@ def run(rep, tier):
     for k in ([0, 1, 2] if tier == "quick" else [0, 1, 2, 3]):
         mutator_table(rep, "interval", k)
         mutator_table(rep, "point", k)
+
+    # I-new-detached: the copy handed out by new() shares no entry list with its source -- editing the copy in place
+    # (what eraseRegion / union / difference do with it) leaves the source tier as it was
+    detached_copy_table(rep)
 
     # I-fresh
     for spec in TIER_RETURNING:
